@@ -976,7 +976,10 @@ def info(prop):
     from . import d14_reader_vc as D
     d = _info_bounded(prop)
     h = D.deductive_info()
-    d["functions"] = h["functions"] + [f for f in d.get("functions", []) if not f.endswith(("_load_and_verify", "_load_box_matrix"))]
+    from . import d13_writer_vc as W
+    hw = W.deductive_info()
+    h = {k: h[k] + hw[k] for k in ("functions", "stubs", "assumptions", "explanation")}
+    d["functions"] = h["functions"] + [f for f in d.get("functions", []) if not f.endswith(("_load_and_verify", "_load_box_matrix", "GroFile.writeline", "_setup_write_file", "_write_closing_info"))]
     d["stubs"] = h["stubs"] + d.get("stubs", [])
     d["assumptions"] = h["assumptions"] + d.get("assumptions", [])
     d["explanation"] = h["explanation"] + d.get("explanation", "").replace("Bounded run-time contract checking, nothing deductive. ", "Bounded part (run-time contract checking): ")
@@ -985,14 +988,15 @@ def info(prop):
 
 
 def tasks(prop, tier, seed):
-    from . import d14_reader_vc as D
-    return list(D.deductive_tasks(prop, tier, seed)) + list(_tasks_bounded(prop, tier, seed))
+    from . import d14_reader_vc as D, d13_writer_vc as W
+    return list(D.deductive_tasks(prop, tier, seed)) + list(W.deductive_tasks(prop, tier, seed, soft=True)) + list(_tasks_bounded(prop, tier, seed))
 
 
 def replay(prop, cex):
     if cex.get("kind") == "vc":
-        # a failed proof obligation of the reader's acceptance logic: look for a truncated file the real reader accepts
-        for name, fn, args, _lim in [t for t in _tasks_bounded(prop, "quick", 0) if t[0].startswith("reader/generated")][:4]:
+        # a failed proof obligation of the reader's acceptance logic / the writer's layout: look for a partial file the real reader accepts
+        pref = "writer/sessions" if cex.get("fn") == "d13:vc" else "reader/generated"
+        for name, fn, args, _lim in [t for t in _tasks_bounded(prop, "quick", 0) if t[0].startswith(pref)][:4]:
             try:
                 obs = fn(*args)
             except Exception:
